@@ -135,9 +135,9 @@ def schedules(prog, quick):
     the default run, and seeded random schedules."""
     yield ("fair", None)
     for fav in sorted(prog):
-        for k in range(0, 36 if quick else 90, 3 if quick else 1):
+        for k in range(0, 30 if quick else 90, 5 if quick else 1):
             yield ("pre", (k, fav))
-    for s in range(4 if quick else 40):
+    for s in range(3 if quick else 40):
         yield ("rnd", s)
 
 
@@ -198,9 +198,10 @@ def stage(ck, tier, seed, tlc):
     wrong = tlc.run("MC_LlcpResolve.tla", "MC_LlcpResolve_if.cfg", "C17/resolve_if", workers=2, timeout=300)
     if "ResolveReturns" not in wrong.violated:
         raise tlc.TLCError("the `if ...: wait()` variant of the resolver model does not violate ResolveReturns: vacuous")
-    hit, _ = tlc.witnesses("MC_LlcpResolve.tla", "MC_LlcpResolve.cfg", "C17/wres", RES_WITNESSES, workers=2)
-    if set(RES_WITNESSES) - hit:
-        raise tlc.TLCError("vacuous resolver model: witnesses not reached: %s" % sorted(set(RES_WITNESSES) - hit))
+    wit = RES_WITNESSES[:2] if quick else RES_WITNESSES
+    hit, _ = tlc.witnesses("MC_LlcpResolve.tla", "MC_LlcpResolve.cfg", "C17/wres", wit, workers=2)
+    if set(wit) - hit:
+        raise tlc.TLCError("vacuous resolver model: witnesses not reached: %s" % sorted(set(wit) - hit))
     traces, meta, seen, nsched, outcomes = [], {}, set(), 0, {}
     for case in cases(quick, seed):
         tr, outcome = trace_of(case, seed)
